@@ -13,7 +13,7 @@ CHECKS["C05"] = dict(
           "more than 4*chainLength+2 views led by members of Q have passed since the suffix started; (c) fault-free synchronous "
           "runs: proposals are one block per view 1..N each extending and certifying its predecessor, and after every delivery "
           "generation every replica has committed exactly the blocks of views 1..(newest handled proposal - chain length). "
-          "Non-trivial = the prefix left two members of Q >= 2 views apart or stale timeouts in a collector; distinct = config+schedule."),
+          "Non-trivial = the prefix left two members of Q >= 2 views apart or stale timeouts in a collector; distinct = config+schedule. The fault-free run also draws ONE replica whose view timer is slower than the others' (it fires after their timeout messages were delivered; messages still arrive before any timer)."),
     assumptions=["bounded liveness under a schedule the harness owns; nothing is claimed about real timers or unbounded asynchrony",
                  "a round guard (3*(lag+bound)+12 rounds) reached without (a) or (b) failing is reported as inconclusive, not as a violation"],
 )
